@@ -21,7 +21,7 @@ pub fn binary_available() -> bool {
 }
 
 /// the command line that asks for exactly these option values (none: not expressible - an empty filter or keep list)
-pub fn opts_to_flags(o: &HOpts) -> Option<Vec<String>> {
+pub fn opts_to_flags(o: &HOpts, variant: u64) -> Option<Vec<String>> {
     if o.filter.is_empty() { return None; }
     let mut a: Vec<String> = vec!["-o".into(), if o.fast_evaluation { "2".into() } else { "3".into() }];
     a.push("-f".into());
@@ -32,9 +32,18 @@ pub fn opts_to_flags(o: &HOpts) -> Option<Vec<String>> {
     }
     a.push("-i".into());
     a.push(match o.interlace { None => "keep".into(), Some(m) => m.to_string() });
+    // "everything off, keep the interlacing" has a spelling of its own (`--nx`), which goes with the single switches in
+    // either order
+    let all_off = !o.bit_depth_reduction && !o.color_type_reduction && !o.palette_reduction && !o.grayscale_reduction;
+    let nx = all_off && o.interlace.is_none() && variant % 2 == 0;
+    if nx {
+        a.truncate(a.len() - 2); // no -i: --nx implies keep
+        a.push("--nx".into());
+        match (variant / 2) % 5 { 0 => {} 1 => a.push("--nb".into()), 2 => a.push("--nc".into()), 3 => a.push("--np".into()), _ => a.push("--ng".into()) }
+    }
     for (on, flag) in [(o.optimize_alpha, "-a"), (o.scale_16, "--scale16"), (o.force, "--force"), (o.fix_errors, "--fix"),
-        (!o.bit_depth_reduction, "--nb"), (!o.color_type_reduction, "--nc"), (!o.palette_reduction, "--np"),
-        (!o.grayscale_reduction, "--ng"), (!o.idat_recoding, "--nz")] {
+        (!o.bit_depth_reduction && !nx, "--nb"), (!o.color_type_reduction && !nx, "--nc"), (!o.palette_reduction && !nx, "--np"),
+        (!o.grayscale_reduction && !nx, "--ng"), (!o.idat_recoding, "--nz")] {
         if on { a.push(flag.into()); }
     }
     let names = |v: &Vec<[u8; 4]>| v.iter().map(|n| String::from_utf8_lossy(n).to_string()).collect::<Vec<_>>().join(",");
@@ -48,16 +57,23 @@ pub fn opts_to_flags(o: &HOpts) -> Option<Vec<String>> {
     Some(a)
 }
 
-/// The same case through the executable (`--stdout`): `None` when these options cannot be asked for on the command line
-/// or the executable reads them differently (that is C09's subject, checked there) - otherwise what it delivered.
-pub fn run_case_via_binary(dir: &Path, input: &[u8], o: &HOpts) -> Option<Outcome> {
-    let mut args = opts_to_flags(o)?;
+/// The same case through the executable (`--stdout`): `None` when these options cannot be asked for on the command line -
+/// otherwise what it delivered.
+pub static CLI_READS_DIFFERENTLY: std::sync::atomic::AtomicUsize = std::sync::atomic::AtomicUsize::new(0);
+
+pub fn run_case_via_binary(dir: &Path, input: &[u8], o: &HOpts, variant: u64) -> Option<Outcome> {
+    let mut args = opts_to_flags(o, variant)?;
     args.extend(["-q".into(), "--stdout".into(), "in.png".into()]);
     let _ = std::fs::create_dir_all(dir);
     std::fs::write(dir.join("in.png"), input).ok()?;
     let r = run_bin(dir, &args);
     let (_, parsed) = canon_dump(&r.dump)?;
-    if parsed.show() != o.show() { return None; }
+    if parsed.show() != o.show() {
+        if std::env::var("OXIVERIF_DEBUG_CLI").is_ok() { eprintln!("asked: {}\n  read: {}\n  args: {}", o.show(), parsed.show(), args.join(" ")); }
+        // (not skipped: the user asked for these values in documented words - if the executable reads them as something
+        // else and the property fails for what was asked, that is a failure of the property's promise to that user)
+        CLI_READS_DIFFERENTLY.fetch_add(1, std::sync::atomic::Ordering::Relaxed);
+    }
     Some(match r.status {
         Some(0) => Outcome::Ok(r.stdout),
         Some(_) => Outcome::Err("the executable reports failure".into()),
